@@ -101,4 +101,4 @@ def step (st : St) (line : String) : St × String :=
     | _, _, _ => (st, "bad-op")
   | _ => (st, "bad-op")
 
-def main : IO Unit := do MpycV.Util.loopS (← IO.getStdin) step ⟨none⟩
+def main : IO Unit := do MpycV.Util.loopS (← IO.getStdin) step ⟨none, 0⟩
